@@ -7,10 +7,14 @@ cross-file inconsistencies of the property's list — start-up, a request on eve
 well-formed success / no_routing_found / data_error / query_error object.
 Refresh-fault phase (tools/c17refresh.py): the fault hits the directory of a RUNNING healthy server (requests answered, connection
 sets cached), then /updateCache?names=all (schedule files: names=schedules first; scenario file: names=scenarios,schedules first); the server must stay up, answer the refresh,
-and answer every request like a server freshly started on the faulted directory."""
+and answer every request like a server freshly started on the faulted directory.
+Loader model tie (tools/loadmodel.py): for every fault that is expressible at decoded level (a file deleted, a file emptied, the
+cross-file inconsistencies) the outcome class and error code of the real server at start-up -- and after its /updateCache?names=all --
+must be the one the extracted Loader2.load_all / Loader2.update computes on the messages Loader2.encode_all produces for the
+dataset with the same fault; likewise for the fresh and the refreshed server of every refresh-fault history."""
 import os, sys, time, json, shutil
 from concurrent.futures import ThreadPoolExecutor
-import build, checklib as cl, run, gen, l3, faults, c17refresh
+import build, checklib as cl, run, gen, l3, faults, c17refresh, loadmodel
 from check_c12 import cl_open
 
 DOC_DATA_CODES = {"DATA_ERROR", "MISSING_DATA_AGENCIES", "MISSING_DATA_SERVICES", "MISSING_DATA_NODES", "MISSING_DATA_LINES", "MISSING_DATA_PATHS",
@@ -62,13 +66,79 @@ def probe(args):
     return res
 
 
+def merge_counts(a, b):
+    out = dict(a)
+    for k, v in b.items():
+        out[k] = out.get(k, 0) + v
+    return out
+
+
+def answer_class(a):
+    """classify()'s text -> 'serves' | 'data_error <code>' | the malformed class itself"""
+    return "serves" if a in ("success", "no_routing_found", "query_error") else a
+
+
+def loader_model_tie(driver, dss, meta, results):
+    """compare every probe of a decoded-level fault with the model's prediction (one driver run per dataset)"""
+    out = dict(comparisons=0, startup=0, refresh=0, disagreements=[], by_kind={}, predicted={}, not_expressible=0, known_model_gap={})
+    for di, ds in enumerate(dss):
+        cases = []
+        for i, (dj, f) in enumerate(meta):
+            if dj != di:
+                continue
+            dec = loadmodel.decoded_fault(f)
+            if dec is None:
+                out["not_expressible"] += 1
+                continue
+            key = loadmodel.kind_key(f)
+            if key in loadmodel.KNOWN_MODEL_GAPS:
+                out["known_model_gap"][key] = out["known_model_gap"].get(key, 0) + 1
+                continue
+            cases.append(("j%d" % i, [dec], "faulted", ["all"]))
+        if not cases:
+            continue
+        try:
+            pred = loadmodel.predict(driver, ds, cases)
+        except Exception as e:
+            out["disagreements"].append("the model could not be run on dataset %d: %s" % (di, str(e)[:300]))
+            continue
+        for (label, dirs, _, _) in cases:
+            i = int(label[1:])
+            r, f, p = results[i], meta[i][1], pred[label]
+            key = loadmodel.kind_key(f)
+            before = [answer_class(a) for (ph, a) in r["answers"] if ph == "before"]
+            after = [answer_class(a) for (ph, a) in r["answers"] if ph == "after"]
+            out["comparisons"] += 1
+            out["startup"] += 1
+            out["by_kind"][key] = out["by_kind"].get(key, 0) + 1
+            want = loadmodel.expected_class(p["load"])
+            out["predicted"][want] = out["predicted"].get(want, 0) + 1
+            if not r["started"] or not loadmodel.class_matches(p["load"], before):
+                out["disagreements"].append("fault '%s' (dataset %d, decoded-level fault '%s'): at start-up the model gives %s (sizes %s, read error %d), the server %s"
+                                            % (r["label"], di, dirs[0], want, p["load"]["sizes"], p["load"]["read_error"],
+                                               ("did not start: %s" % r["died"]) if not r["started"] else "answers %s" % sorted(set(before))))
+                continue
+            if after and p["updates"]:
+                out["comparisons"] += 1
+                out["refresh"] += 1
+                u = p["updates"][0]
+                out["by_kind"][key] = out["by_kind"].get(key, 0) + 1
+                wu = "after refresh: " + loadmodel.expected_class(u)
+                out["predicted"][wu] = out["predicted"].get(wu, 0) + 1
+                if not loadmodel.class_matches(u, after):
+                    out["disagreements"].append("fault '%s' (dataset %d, decoded-level fault '%s'): after /updateCache?names=all on the server started on the faulted files the model (Loader2.update) gives %s (sizes %s), the server answers %s"
+                                                % (r["label"], di, dirs[0], loadmodel.expected_class(u), u["sizes"], sorted(set(after))))
+    return out
+
+
 def main(pid, tier, seed, replay_path=None):
     t0 = time.time()
     po = cl.proof_obligations(pid)
     san = (tier == "thorough")
     binary, e1 = l3.build_server(san=san)
-    if e1:
-        path = cl.write_nofail_replay(pid, "server build", str(e1))
+    driver, e2 = build.build_driver()
+    if e1 or e2:
+        path = cl.write_nofail_replay(pid, "server / model build", str(e1 or e2))
         print("VIOLATION property=%s replay=%s no-failing-input-found" % (pid, path))
         return 1
     if replay_path and c17refresh.is_replay(replay_path):
@@ -85,12 +155,13 @@ def main(pid, tier, seed, replay_path=None):
     shutil.rmtree(d, ignore_errors=True)
     os.makedirs(d, exist_ok=True)
     nds = 2 if tier == "quick" else 3
-    jobs = []
+    jobs, meta, dss = [], [], []       # meta[i] = (dataset index, (kind, file / inconsistency name, arg)) of jobs[i]
     stub = l3.OsrmStub()
     kinds = {}
     for di in range(nds):
         ds = gen.gen_dataset(rng.fork(), dict(gen.PROFILES["opt"], nmax=6, lmax=3))
         base = os.path.join(d, "base%d" % di)
+        dss.append(ds)
         l3.write_cache(ds, base)
         n1, n2 = ds.nodes[0], ds.nodes[-1]
         stub.set_tables([(n1, 30, 40)], [(n2, 30, 40)])
@@ -140,6 +211,20 @@ def main(pid, tier, seed, replay_path=None):
             cache = os.path.join(d, "f%d_%05d" % (di, fi))
             faults.apply_file_fault(base, cache, f)
             jobs.append((binary, cache, stub.port, "%s %s %s" % f, requests, san))
+            meta.append((di, f))
+            kinds[f[0]] = kinds.get(f[0], 0) + 1
+        # two collections missing at once (every pair of the six collections the data status tests, and scenarios + all per-line
+        # files): with one fault, two collections are only ever empty together when one depends on the other, so the order of the
+        # tests of TransitData::getDataStatus would go unobserved
+        sc = ["agencies.capnpbin", "services.capnpbin", "nodes.capnpbin", "lines.capnpbin", "paths.capnpbin", "scenarios.capnpbin"]
+        for (a, b) in [(x, y) for i, x in enumerate(sc) for y in sc[i + 1:]] + [("scenarios.capnpbin", "lines/*")]:
+            cache = os.path.join(d, "p%d_%s_%s" % (di, a.split(".")[0], b.split(".")[0].replace("/*", "")))
+            shutil.copytree(base, cache)
+            for rel in [a] + ([x for x in files if x.startswith("lines/")] if b == "lines/*" else [b]):
+                os.unlink(os.path.join(cache, rel))
+            f = ("delete2", a + "+" + b, None)
+            jobs.append((binary, cache, stub.port, "%s %s %s" % f, requests, san))
+            meta.append((di, f))
             kinds[f[0]] = kinds.get(f[0], 0) + 1
         for name, (c, n, l) in faults.inconsistencies(ds):
             cache = os.path.join(d, "i%d_%s" % (di, name))
@@ -148,13 +233,16 @@ def main(pid, tier, seed, replay_path=None):
             except Exception as e:
                 continue
             jobs.append((binary, cache, stub.port, "inconsistency " + name, requests, san))
+            meta.append((di, ("inconsistency", name, None)))
             kinds["inconsistency"] = kinds.get("inconsistency", 0) + 1
-    with ThreadPoolExecutor(max_workers=12) as ex:
+    with ThreadPoolExecutor(max_workers=int(os.environ.get("TRV_JOBS", "12"))) as ex:
         results = list(ex.map(probe, jobs))
     stub.close()
     t_startup = time.time() - t0
     # ---- refresh-fault phase: the fault arrives while a healthy server runs, then /updateCache ---------------------------------
-    rf = c17refresh.run(binary, seed, tier, san=san)
+    rf = c17refresh.run(binary, seed, tier, san=san, driver=driver)
+    lm = loader_model_tie(driver, dss, meta, results)
+    lm_dis = lm["disagreements"] + rf["loader_model_disagreements"]
     fails, outcomes = [], {}
     for r in results:
         cls = "died" if r["died"] else ("data_error" if any(a[1].startswith("data_error") for a in r["answers"]) else "serves")
@@ -203,16 +291,39 @@ def main(pid, tier, seed, replay_path=None):
         for w in sorted(set(x[0][:110] for x in fails))[:8]:
             print("  also:", w)
         viol.append(path); rc = 1
-    elif not po["ok"] and not rf["fails"]:
+    if lm_dis:
+        # the model of the loaders and the loaders differ: either the model does not describe the code (then the theorems about
+        # Loader2 say nothing about it) or the harness mapping is wrong; a real misbehaviour of the server is the existing oracle's call
+        if not viol:
+            path = cl.write_nofail_replay(pid, "correspondence of coq/Loader2.v (load_all / update) with the real cache loaders",
+                                          "model Loader2.load_all and the real loaders disagree (%d of %d comparisons):\n%s"
+                                          % (len(lm_dis), lm["comparisons"] + rf["loader_model_comparisons"], "\n".join(lm_dis[:60])))
+            print("VIOLATION property=%s replay=%s no-failing-input-found\n  model Loader2.load_all and the real loaders disagree (%d comparisons of %d)"
+                  % (pid, path, len(lm_dis), lm["comparisons"] + rf["loader_model_comparisons"]))
+            viol.append(path); rc = 1
+        for w in lm_dis[:8]:
+            print("  model Loader2.load_all and the real loaders disagree: " + w[:400])
+    if not fails and not rf["fails"] and not lm_dis and not po["ok"]:
         path = cl.write_nofail_replay(pid, "proof obligations of Properties_%s.v (%d of %d)" % (pid, po["discharged"], po["obligations"]), po["log"])
         print("VIOLATION property=%s replay=%s no-failing-input-found" % (pid, path))
         viol.append(path); rc = 1
     cov = dict(obligations=max(1, po["obligations"]), discharged=po["discharged"], checker_cmd=po["checker_cmd"], trusted_base=cl.TRUSTED_BASE,
                theorems=po["theorems"], print_assumptions=po["assumptions"], open_statements=cl_open(pid),
                evaluations=len(results), distinct_nontrivial=len(set(r["label"] for r in results)),
-               rule="fault enumeration on cache directories written from generated datasets: every file deleted / emptied; truncation offsets, single-bit flips and zeroed ranges (all offsets and bits of the files <= 400 bytes in the thorough tier, samples otherwise); the cross-file inconsistencies of the property's list; for each: start the real binary%s, one request per endpoint, /updateCache?names=all, the requests again; distinct = distinct (fault kind, file, argument)" % (" (ASan+UBSan build)" if san else ""),
+               rule="fault enumeration on cache directories written from generated datasets: every file deleted / emptied; every pair of the six collection files the data status tests deleted together (and scenarios + all per-line files); truncation offsets, single-bit flips and zeroed ranges (all offsets and bits of the files <= 400 bytes in the thorough tier, samples otherwise); the cross-file inconsistencies of the property's list; for each: start the real binary%s, one request per endpoint, /updateCache?names=all, the requests again; distinct = distinct (fault kind, file, argument)" % (" (ASan+UBSan build)" if san else ""),
                samples=[dict(fault=r["label"], answers=r["answers"][:4]) for r in results[:3]], fault_kinds=kinds, outcome_classes=outcomes,
                violations=len(fails) + len(rf["fails"]) + len(cp["fails"]), crafted_corpus_cases=cp["cases"], exhaustive=False, sanitizers=san,
+               loader_model_rule="every fault of the run that is expressible at decoded level (file deleted = FMissing, file emptied = FGarbled [], the cross-file inconsistencies as changes of the messages; not: truncations, bit flips, zeroed ranges) is also applied to the messages Loader2.encode_all gives for the dataset (in the layout of tools/l3.py write_cache); the extracted Loader2.load_all must predict the outcome class and error code of the real server's answers at start-up (READY = serves, otherwise the fast data_error with the MISSING_DATA code of the status), Loader2.update [CAll] from that state the class after the /updateCache?names=all of the probe; in the refresh-fault phase load_all predicts the fresh server and update (names as sent, from load_all of the healthy files) the refreshed server after every /updateCache",
+               loader_model_comparisons=lm["comparisons"] + rf["loader_model_comparisons"],
+               loader_model_disagreements=len(lm_dis),
+               loader_model_startup_comparisons=lm["startup"] + rf["loader_model_startup"],
+               loader_model_refresh_comparisons=lm["refresh"] + rf["loader_model_refresh"],
+               loader_model_by_fault_kind=merge_counts(lm["by_kind"], rf["loader_model_by_kind"]),
+               loader_model_predicted_classes=merge_counts(lm["predicted"], rf["loader_model_predicted"]),
+               loader_model_not_expressible=lm["not_expressible"] + rf["loader_model_not_expressible"],
+               known_model_gap=merge_counts(lm["known_model_gap"], rf["known_model_gap"]),
+               known_model_gap_reasons=loadmodel.KNOWN_MODEL_GAPS,
+               loader_model_disagreement_samples=lm_dis[:10],
                refresh_fault_rule="healthy start-up on a complete generated directory, 9 requests over 3 scenarios (connection sets cached, both cache modes); one fault applied to the directory on disk (every collection file deleted, all per-line files deleted, a per-stop / per-line file deleted; empty / truncated at a sampled offset / one bit flipped / a range zeroed on collection, per-line and per-stop files, the collection rotating with the seed; sampled cross-file inconsistencies); /updateCache?names=all (faults in schedule files: names=schedules first, faults in the scenario file: names=scenarios,schedules first, then names=all), the requests again after every refresh. Oracle: process alive after every step and ended only by our SIGTERM, no sanitizer report; /updateCache answered with the success object; every answer well-formed with a documented data error code and equal (canonical route / map / summary, errorCode, reason) to the answer of a server freshly started on the faulted directory; a deleted collection is named; where the fresh start-up stopped at an unreadable collection (it then reports the first collection it did not get to) the refreshed server, which goes on loading, is instead compared with a second healthy server started on other data and refreshed onto the same files (state after names=all is a function of the files alone)",
                refresh_fault_histories=rf["histories"], refresh_fault_answers=rf["answers"], refresh_fault_updates=rf["updates"],
                refresh_fault_kinds=rf["fault_kinds"], refresh_fault_targets=rf["fault_targets"], refresh_outcome_classes=rf["outcome_classes"],
@@ -220,7 +331,9 @@ def main(pid, tier, seed, replay_path=None):
                refresh_fault_samples=rf["labels"][:40], startup_phase_wall_s=round(t_startup, 1), refresh_phase_wall_s=rf["wall_s"])
     cl.write_evidence(pid, tier, seed, "proof", cov, ["byte level reduced to 'the decoder throws or yields a well-typed message' (Cap'n Proto's contract, trusted); collection loaders other than schedules/stop files are guarded by catch-alls in the source and are covered by the enumeration only"],
                       time.time() - t0, len(viol))
-    print("%s %s: obligations %d/%d, %d faulted directories %s -> %s, %d violations (%.1fs); refresh-fault phase: %d histories %s, %d answers, %d history-independence checks -> %s, %d violations (%.1fs); %.1fs"
+    print("%s %s: obligations %d/%d, %d faulted directories %s -> %s, %d violations (%.1fs); refresh-fault phase: %d histories %s, %d answers, %d history-independence checks -> %s, %d violations (%.1fs); loader model: %d comparisons (%d start-up, %d after a refresh), %d disagreements, %d skipped as known model gap; %.1fs"
           % (pid, tier, po["discharged"], po["obligations"], len(results), kinds, outcomes, len(fails), t_startup, rf["histories"], rf["fault_kinds"], rf["answers"],
-             rf["independence_checked"], rf["outcome_classes"], len(rf["fails"]), rf["wall_s"], time.time() - t0))
+             rf["independence_checked"], rf["outcome_classes"], len(rf["fails"]), rf["wall_s"],
+             lm["comparisons"] + rf["loader_model_comparisons"], lm["startup"] + rf["loader_model_startup"], lm["refresh"] + rf["loader_model_refresh"],
+             len(lm_dis), sum(lm["known_model_gap"].values()) + sum(rf["known_model_gap"].values()), time.time() - t0))
     return rc
